@@ -139,16 +139,15 @@ impl FormatStringParser<'_> {
     }
 
     fn peek(&self, count: usize) -> Result<&str, Box<dyn Error>> {
-        if self.string.len() < count {
-            return Err("Unexpected EOF".into());
-        }
-
-        Ok(&self.string[0..count])
+        // `count` is in bytes; it may fall inside a multi-byte character.
+        self.string
+            .get(0..count)
+            .ok_or_else(|| "Unexpected EOF".into())
     }
 
     fn advance_one(&mut self) -> Result<char, Box<dyn Error>> {
         let c = self.front()?;
-        self.string = &self.string[1..];
+        self.string = &self.string[c.len_utf8()..];
         Ok(c)
     }
 
@@ -201,7 +200,7 @@ impl FormatStringParser<'_> {
         }
     }
 
-    fn parse_format_width(&mut self) -> Option<usize> {
+    fn parse_format_width(&mut self) -> Result<Option<usize>, Box<dyn Error>> {
         let start = self.string;
         let mut digits = 0;
 
@@ -212,11 +211,13 @@ impl FormatStringParser<'_> {
         }
 
         if digits > 0 {
-            // safe to unwrap: we already know all the digits are valid due to
-            // the above checks.
-            Some((start[0..digits]).parse().unwrap())
+            // All the characters are digits, but the value may not fit.
+            let width = start[0..digits]
+                .parse()
+                .map_err(|_| format!("Invalid field width: {}", &start[0..digits]))?;
+            Ok(Some(width))
         } else {
-            None
+            Ok(None)
         }
     }
 
@@ -252,7 +253,7 @@ impl FormatStringParser<'_> {
             self.advance_one().unwrap();
         }
 
-        let width = self.parse_format_width();
+        let width = self.parse_format_width()?;
 
         let first = self.advance_one()?;
         if first == '%' {
